@@ -128,8 +128,8 @@ func getOperationsAtProtocolVersion(opsAtTime []*operation.QueuedOperationAtTime
 	var ops []*operation.QueuedOperation
 	var protocolVersion uint64
 
-	for _, op := range opsAtTime {
-		if protocolVersion == 0 {
+	for i, op := range opsAtTime {
+		if i == 0 {
 			protocolVersion = op.ProtocolVersion
 		}
 
